@@ -60,6 +60,7 @@ pub const EV_STALE: u16 = 26;
 pub const EV_FREEZE: u16 = 27;
 pub const EV_CAS_SPUR: u16 = 28;
 pub const EV_POST: u16 = 29;
+pub const EV_SYSCALL: u16 = 30;
 pub const EV_USER: u16 = 100;
 
 pub fn ev_name(k: u16) -> &'static str {
@@ -93,6 +94,7 @@ pub fn ev_name(k: u16) -> &'static str {
         EV_FREEZE => "freeze",
         EV_CAS_SPUR => "cas_spurious",
         EV_POST => "after_write",
+        EV_SYSCALL => "syscall",
         _ => "user",
     }
 }
@@ -306,6 +308,7 @@ pub struct Thread {
     pub name: &'static str,
     cas_spur_run: u32,
     eintr_run: u32,
+    silent_run: u32,
     pub in_store: u32,
     handler_entry_own: u64,
     held_mutexes: u32,
@@ -740,6 +743,7 @@ impl Thread {
             name,
             cas_spur_run: 0,
             eintr_run: 0,
+            silent_run: 0,
             in_store: 0,
             handler_entry_own: 0,
             held_mutexes: 0,
@@ -1055,9 +1059,17 @@ pub fn sp(kind: u16, addr: usize) {
             }
             if l.owner == owner_key {
                 if silent {
-                    count(C_SILENT_SKIPPED, 1);
-                    log(kind, addr as u64, u64::MAX);
-                    return;
+                    // (a thread that spins on a location only it has touched would never reach a
+                    // scheduling point: after 20 000 silent operations in a row the location stops
+                    // being silent, the others get to run and the step budget applies)
+                    let run = &mut s.threads[me].silent_run;
+                    *run += 1;
+                    if *run <= 20_000 {
+                        count(C_SILENT_SKIPPED, 1);
+                        log(kind, addr as u64, u64::MAX);
+                        return;
+                    }
+                    s.loc_entry(addr).shared = true;
                 }
             } else {
                 l.shared = true;
@@ -1066,6 +1078,7 @@ pub fn sp(kind: u16, addr: usize) {
     }
     s.steps += 1;
     s.threads[me].own_steps += 1;
+    s.threads[me].silent_run = 0;
     if depth == 0 {
         s.threads[me].own_steps0 += 1;
         if let Some(wa) = s.threads[me].flip_watch {
@@ -1301,6 +1314,15 @@ pub fn vc_leq(a: &VC, a_tid: usize, b: &VC) -> bool {
 
 // ---------------------------------------------------------------------------------------------
 // threads
+
+/// Like `spawn`, but hands the closure back when all thread slots are taken (decided atomically
+/// with the spawn: no scheduling point in between).
+pub fn try_spawn<F: FnOnce() + Send + 'static>(name: &'static str, f: F) -> Result<usize, Option<F>> {
+    if sim().threads.len() >= MAX_THREADS {
+        return Err(Some(f));
+    }
+    Ok(spawn(name, f))
+}
 
 pub fn spawn<F: FnOnce() + Send + 'static>(name: &'static str, f: F) -> usize {
     assert!(on(), "spawn outside simulation");
